@@ -615,3 +615,32 @@ fn api_build() {
         }
     }
 }
+
+/// The `error: ...` line for every kind of parse error (symbolic payloads): printed
+/// once, terminated by CR LF, flushed; the handler side is not involved.
+#[kani::proof]
+#[kani::unwind(32)]
+fn api_process_error() {
+    use embedded_cli::service::ParseError;
+    let pre = any_pre_valid(0);
+    let which: u8 = kani::any();
+    kani::assume(which < 6);
+    let c: char = kani::any();
+    kani::assume(c as u32 >= 0x20);
+    let mut cli = build(&pre, TailSink::<4>::new());
+    let r = match which {
+        0 => cli.__verif_process_error(ParseError::UnknownCommand),
+        1 => cli.__verif_process_error(ParseError::UnexpectedShortOption { name: c }),
+        2 => cli.__verif_process_error(ParseError::UnexpectedArgument { value: "v" }),
+        3 => cli.__verif_process_error(ParseError::UnexpectedLongOption { name: "lo" }),
+        4 => cli.__verif_process_error(ParseError::MissingRequiredArgument { name: "<F>" }),
+        _ => cli.__verif_process_error(ParseError::ParseValueError { value: "x", expected: "u8" }),
+    };
+    assert!(r.is_ok());
+    let w = cli.__verif_writer();
+    assert!(w.pending == 0, "C15: flushed");
+    assert!(w.lfs == 1 && w.len == 0, "C09: a single `error:` line, terminated");
+    assert!(w.written >= 9);
+    kani::cover!(which == 1 && c as u32 > 0xffff);
+    kani::cover!(which == 5);
+}
